@@ -11,6 +11,9 @@ From CV Require Import Frame.FramePackedProofs.
 From CV Require Import Frame.FrameSim.
 From CV Require Import Frame.FramePackedThms.
 From CV Require Import Frame.FramePackedCut.
+From CV Require Import Base.GoSem.
+From CV Require Import Gen.GoArith.
+From CV Require Import Frame.FrameGoAgree.
 Open Scope Z_scope.
 
 (* Any list of messages written by Encoder.Encode (repaired: unaligned segments are refused),
@@ -180,6 +183,13 @@ Theorem all_paths_same_segments : forall segs mx, max_ok mx -> frame_ok mx segs 
 Proof. exact FramePackedThms.all_paths_same_segments. Qed.
 Print Assumptions all_paths_same_segments.
 
+(* tie to the translated Go source (coq/Gen/GoArith.v is regenerated from /repo by gotrans on
+   every run): the overflow-checked multiplication used by segmentSize is Size.times *)
+Theorem C14_word_times_is_go_times : forall n, -2147483648 <= n < 2147483648 ->
+  go_times word_size n = match word_times n with Some x => (x, true) | None => (4294967295, false) end.
+Proof. exact word_times_is_go_times. Qed.
+Print Assumptions C14_word_times_is_go_times.
+
 (* findings / observations kept as refuted variants *)
 (* F21: Encode as found accepts an unaligned segment: corrupt frame, panic in the packed encoder *)
 Theorem C14_encode_unaligned_refuted :
@@ -189,6 +199,16 @@ Theorem C14_encode_unaligned_refuted :
   /\ encode_packed false [[1; 2; 3; 4; 5; 6; 7; 8; 9]] = Panic.
 Proof. exact encode_unaligned_refuted. Qed.
 Print Assumptions C14_encode_unaligned_refuted.
+
+(* F22 (was O1): the segment-count check as found accepted 513 segments; repaired: 512 *)
+Theorem C14_accepts_513_refuted :
+  let hdr512 := le32 511 ++ zeros (4 * 512 + 4) in
+  let hdr513 := le32 512 ++ zeros (4 * 513) in
+  (exists segs, snd (fst (decode1_gen false (d_init (mkReader [hdr513] EOF) 0))) = DMsg segs /\ len segs = 513) /\
+  snd (fst (decode1 (d_init (mkReader [hdr513] EOF) 0))) = DErr ETooManySegs /\
+  (exists segs, snd (fst (decode1 (d_init (mkReader [hdr512] EOF) 0))) = DMsg segs /\ len segs = 512).
+Proof. exact accepts_513_refuted. Qed.
+Print Assumptions C14_accepts_513_refuted.
 
 (* O3: segmentSize computes 4+i*4 in uint32: entry 2^30-1 is read from offset 0 *)
 Theorem C14_seg_index_wraps : seg_index 1073741823 = 0.
